@@ -177,6 +177,12 @@ func (r *MRunner) Do(s Step) (res MRes) {
 		for i := range r.Slots {
 			r.Slots[i] = nil
 		}
+	case "symlink":
+		res.DontCare = true
+		if c := model.Clean(s.Path2); m.Get(c) == nil && m.Get(parentOf(c)) != nil && m.Get(parentOf(c)).Kind == "dir" {
+			m.Nodes[c] = &model.Node{Kind: "link", Perm: 0777}
+			m.Ever[c] = true
+		}
 	case "arch_archive":
 		res.DontCare = true
 		for _, mb := range s.Members {
